@@ -19,7 +19,7 @@ from evalr import SeqV, StructV, RefV, Cell, stored_sum, S_of
 import copy
 from rules.C02 import raw_equiv as _len_equiv, entry_len_subst
 
-LEVEL = 'other'
+LEVEL = 'proof'
 RULE = 'checksum-ledger analysis: formal byte-sum of the emission shape vs ledger arithmetic, inductively over the public API'
 TRUSTED = ['byte-sum algebra (engine/evalr.py S_of, stored_sum)', 'Z256 normal form (engine/sym.py wrap)', 'C17 (value() == -raw mod 256)']
 ASSUMPTIONS = ['foreign T: Aml + IntoBytes given to MADT/HEST add_structure serialises to its raw bytes (C14 decides this for every crate type)',
